@@ -208,7 +208,7 @@ pub fn tree_walker(
                 target_base.clone()
             };
 
-            if config.no_clobber && target.exists() {
+            if config.no_clobber && target.symlink_metadata().is_ok() {
                 let msg = "Destination file exists and --no-clobber is set.";
                 stats.send(StatusUpdate::Error(
                     XcpError::DestinationExists(msg, target)))?;
